@@ -3,7 +3,7 @@ all operand bits symbolic, compared with spec-side linear algebra (contracts/alg
 from vplib.core import Group, with_canaries
 from checks.shapes import mat
 
-TUS = ["mzd", "mmc", "misc", "graycode", "brilliantrussian", "strassen", "mzp", "ple", "ple_russian", "triangular", "triangular_russian", "echelonform", "io", "djb", "debug_dump", "mp", "solve"]
+TUS = ["mzd", "mmc", "misc", "graycode", "brilliantrussian", "strassen", "mzp", "ple", "ple_russian", "triangular", "triangular_russian", "echelonform", "io", "djb", "debug_dump", "mp", "solve", "@libm"]
 NAIVE_PLUQ = ("-D_mzd_pluq(A,P,Q,c)=_mzd_pluq_naive(A,P,Q)", "-Dmzd_pluq(A,P,Q,c)=_mzd_pluq_naive(A,P,Q)")
 
 
@@ -24,7 +24,7 @@ def G(pid, mode, fn, m, n, props, kind="owned", bw=None, extra=None, timeout=900
     tag = "%dx%d%s.%s%s" % (m, n, (".bw%d" % bw) if bw is not None else "", kind, "".join(".%s%s" % (k.lower(), v) for k, v in sorted((extra or {}).items())))
     t = list(tus or TUS)
     return Group(gid="B.%s.%s" % (mode.lower(), tag), props=list(props), harness="b_alg.c", function=fn, layer="B", defines=d,
-                 tus=t, assert_mode=True, unwind=unwind, refine=True, config=config, bounded=True,
+                 tus=t, assert_mode=True, unwind=unwind, refine=True, spec_unwind=max(d["VRMAX"], d["VCMAX"], 6) + 2, config=config, bounded=True,
                  bound_note="shape %s, all operand bits symbolic%s%s" % (tag, "; _mzd_pluq replaced by the library's _mzd_pluq_naive (same certificate contract, see DESIGN.md C06)" if naive_pluq else "", note),
                  shape=tag, timeout=timeout, slots=slots, mem_gb=mem, supporting=supporting, solver="--sat-solver cadical",
                  extra_cflags=[], native_tus=t)
@@ -33,7 +33,7 @@ def G(pid, mode, fn, m, n, props, kind="owned", bw=None, extra=None, timeout=900
 def c02(tier):
     P = ("C02", "C10", "C12")
     gs = [G("C02", "ECH_NAIVE", "mzd_echelonize_naive", 3, 5, P, extra={"FULL": 1}), G("C02", "ECH_NAIVE", "mzd_echelonize_naive", 3, 5, P, kind="view1", extra={"FULL": 0}),
-          G("C02", "ECH_NAIVE", "mzd_echelonize_naive", 2, 66, P, extra={"FULL": 1}, timeout=1200),
+          G("C02", "ECH_NAIVE", "mzd_echelonize_naive", 2, 20, P, extra={"FULL": 1}, timeout=1200),
           G("C02", "TOP_ECH", "mzd_top_echelonize_m4ri", 3, 4, P, extra={"KPAR": 2}, timeout=1500),
           G("C02", "ECH_M4RI", "mzd_echelonize_m4ri", 3, 4, P, extra={"FULL": 1, "KPAR": 2}, timeout=1500)]
     if tier == "thorough":
@@ -47,7 +47,7 @@ def c02(tier):
 def c03(tier):
     P = ("C03", "C10", "C12")
     gs = [G("C03", "PLUQ_NAIVE", "_mzd_pluq_naive", 3, 5, P), G("C03", "PLE_NAIVE", "_mzd_ple_naive", 3, 5, P), G("C03", "PLUQ_NAIVE", "_mzd_pluq_naive", 4, 3, P, kind="view1"),
-          G("C03", "PLE_NAIVE", "_mzd_ple_naive", 2, 66, P, timeout=1500)]
+          G("C03", "PLE_NAIVE", "_mzd_ple_naive", 2, 20, P, timeout=1500)]
     if tier == "thorough":
         gs += [G("C03", "PLUQ", "mzd_pluq", 2, 3, P, timeout=5400, slots=4), G("C03", "PLE", "mzd_ple", 2, 3, P, timeout=5400, slots=4),
                G("C03", "PLE", "mzd_ple", 2, 3, P, timeout=5400, slots=4, config="scalar")]
